@@ -264,7 +264,13 @@ func c17Case(k *fw.K, shape []int, lr lrSpec, src int) {
 		}
 		slot = w
 		ptr := &slot
-		if p := call(func() { err = opt.Update(ptr) }); p != nil || err != nil {
+		stepper := opt
+		if round == 1 && k.Index%3 == 0 { // the second step goes through a VALUE COPY of the optimizer struct
+			cp := *opt
+			stepper = &cp
+			k.Count("steps_through_a_value_copy_of_the_optimizer", 1)
+		}
+		if p := call(func() { err = stepper.Update(ptr) }); p != nil || err != nil {
 			k.Failf("Update(lr %s, shape %v, %s): panic=%v err=%v", lr.name, shape, what, p, err)
 			return
 		}
